@@ -92,6 +92,7 @@ STAGES = {
     "e2e-forms": (e2e.obs_day, "DenoteTrace"),
     "e2e-dates": (e2e.obs_day, "DenoteTrace"),
     "e2e-default-now": (obs_now_default, "DenoteTrace"),
+    "e2e-subminute": (e2e.obs_day, "DenoteTrace"),
 }
 
 
@@ -126,8 +127,13 @@ def run(ctx):
         dates = [d + hm for d in days for hm in ((0, 0), (12, 43), (23, 59))]
     cases = [{"text": t, "D": D, "ts": ts, "label": lab.split(":")[0], "form": t} for lab, t, D in reps for ts in dates]
     core.run_stage(ctx, "e2e-dates", cases, e2e.obs_day, "DenoteTrace")
+    # sub-minute parts of the reference time must be ignored (truncated), also in the last seconds of a day / month / year
+    sub = [(2024, 2, 28, 23, 59, 40, 0), (2019, 12, 31, 23, 59, 59, 999999), (2018, 3, 7, 12, 43, 30, 0), (2021, 4, 30, 23, 59, 31, 5)]
+    cases = [{"text": t, "D": D, "ts": ts, "label": lab.split(":")[0], "form": t} for lab, t, D in reps for ts in sub]
+    core.run_stage(ctx, "e2e-subminute", cases, e2e.obs_day, "DenoteTrace")
     cases = [{"text": t, "D": D, "ts": ts + (30, 123456), "label": lab.split(":")[0], "form": t}
              for lab, t, D in reps for ts in tss]
+    cases += [{"text": t, "D": D, "ts": ts, "label": lab.split(":")[0], "form": t} for lab, t, D in reps for ts in sub[:2]]
     core.run_stage(ctx, "e2e-default-now", cases, obs_now_default, "DenoteTrace")
     ctx.exhaustive = False
 
